@@ -99,6 +99,14 @@ class Prop(core.Prop):
             for which in ('LLOD', 'ULOD', 'both'):
                 for src in ('built', 'text'):
                     yield dict(group, miss=0, mask='one', comments=0, indep_units=True, source=src, lod=li, lodwhich=which)
+        # valid data that happen to equal the customary detection-limit flags (-8888, -7777) while the file
+        # declares none, or declares them (then they are flagged data, still not missing)
+        for mk in ('none', 'one'):
+            for mi in (0, 1):
+                for src in ('built', 'text'):
+                    yield dict(group, miss=mi, mask=mk, comments=0, indep_units=True, source=src, lodvals=True)
+                    yield dict(group, miss=mi, mask=mk, comments=0, indep_units=True, source=src, lodvals=True,
+                               lod=0, lodwhich='both')
         # 32-bit dependent variables whose missing code has no exact 32-bit representation
         for mk in MASKS:
             for code in range(len(F4CODES)):
@@ -127,6 +135,11 @@ class Prop(core.Prop):
                 k += 1
         if MISS[case['miss']] == 0:
             t[t == 0] = 5.       # a datum equal to the missing code cannot be told from a missing one
+        if case.get('lodvals'):
+            t[0, 0] = -8888.
+            t[nrec - 1, ndep - 1] = -7777. if (nrec, ndep) != (1, 1) else -8888.
+            if nrec > 1:
+                t[1, 0] = -7777.
         m = np.zeros((nrec, ndep), bool)
         if case['mask'] == 'one':
             m[nrec - 1, 0] = True
@@ -243,7 +256,8 @@ class Prop(core.Prop):
         scope = dict(source=case['source'], mask=case['mask'], nrec=case['nrec'], ndep=ndep,
                      indep_units=case['indep_units'], ncomments=bin(case['comments']).count('1'), miss=miss,
                      percode=bool(case.get('percode')), scale_attr=bool(case.get('scale_attr')),
-                     lod=LODS[case['lod']] if 'lod' in case else '', f4=bool('f4code' in case))
+                     lod=LODS[case['lod']] if 'lod' in case else '', f4=bool('f4code' in case),
+                     lodvals=bool(case.get('lodvals')))
         vs = []
         ntrans = 0
         try:
